@@ -3,7 +3,7 @@
 From Coq Require Import List NArith ZArith Bool String.
 From BL Require Import Base.Bytes Reader.Entry Reader.SegMap Reader.EventStream Reader.Filter Render.Pretty Render.Time Render.Message Queue.QueueModel Session.SessionModel Mser.Types Mser.Encode Mser.Tag Mser.Visit.
 From BL Require Mser.Decode.
-From BL Require Render.FloatG Recovery.Recover.
+From BL Require Render.FloatG Recovery.Recover Recovery.ImageProofs.
 Import ListNotations.
 Local Open Scope N_scope.
 
@@ -190,6 +190,12 @@ Definition sout_text (o : sout) : bytes :=
   end.
 Definition api_session (fence : bool) (ops : list sop) : bytes :=
   join sp (map sout_text (snd (srun fence (sess_init fixed_cs) ops))).
+(** the memory of the session after a history, as the recovery theorems describe it (C08 state tie): clock-sync buffer, sources buffer,
+    then the committed-but-unreleased bytes of every channel *)
+Definition hex_or_dash (b : bytes) : bytes := match b with [] => str "-" | _ => hex b end.
+Definition api_session_state (cs0 : clocksync) (ops : list sop) : bytes :=
+  let s := fst (srun true (sess_init cs0) ops) in
+  join sp (hex_or_dash (cs_buf s) :: hex_or_dash (src_buf s) :: map (fun ch => hex_or_dash (Recovery.ImageProofs.unreleased (ch_q ch))) (channels s)).
 (** a source derived from a small number, the same way the driver builds it *)
 Definition site_source (n sev : N) : source :=
   mkSource 0 sev (str "cat" ++ dec n) (str "fn" ++ dec n) (str "file" ++ dec n ++ str ".cpp") (100 + n) (str "msg " ++ dec n ++ str " {}") (str "i").
